@@ -128,3 +128,58 @@ def steady_state(fam: str, p: dict) -> np.ndarray | None:
     if np.any(ev.real >= 0):
         return None
     return -np.linalg.solve(a, b)
+
+
+# --------------------------------------------------------------------------
+# families for scans / views / mca / fit (factories: a fresh model per call)
+# --------------------------------------------------------------------------
+def _rev_tot(x, tot, kr):  # noqa: ANN001, ANN202
+    return kr * (tot - x)
+
+
+def _ratio(x, y):  # noqa: ANN001, ANN202
+    return x / (y + 1.0)
+
+
+def _sum2(x, y):  # noqa: ANN001, ANN202
+    return x + y
+
+
+def scan_model(name: str):  # noqa: ANN201
+    """S1: chain with a derived variable and a readout.
+    S2: conserved pair whose backward rate uses a PARAMETER defined by an initial
+        assignment over the initial values (tot = x0 + y0).
+    S3: S1 whose outflow is div(y, kd): raises ZeroDivisionError for kd == 0."""
+    from mxlpy import InitialAssignment, Model
+
+    m = Model()
+    if name in ("S1", "S3"):
+        m.add_parameters({"c": 1.0, "k1": 0.5, "k2": 0.25, "kd": 2.0})
+        m.add_variables({"x": 1.0, "y": 0.5})
+        m.add_derived("tot", _sum2, args=["x", "y"])
+        m.add_derived("k12", fnlib.add, args=["k1", "k2"])  # derived parameter
+        m.add_reaction("vin", fnlib.const, args=["c"], stoichiometry={"x": 1})
+        m.add_reaction("v1", fnlib.ma1, args=["x", "k1"], stoichiometry={"x": -1, "y": 1})
+        if name == "S1":
+            m.add_reaction("v2", fnlib.ma1, args=["y", "k2"], stoichiometry={"y": -1})
+        else:
+            m.add_reaction("v2", fnlib.div, args=["y", "kd"], stoichiometry={"y": -1})
+        m.add_readout("ratio", _ratio, args=["x", "y"])
+        return m
+    if name == "S2":
+        m.add_parameters({"kf": 1.0, "kr": 0.5})
+        m.add_variables({"x": 2.0, "y": 1.0})
+        m.add_parameter("tot", InitialAssignment(fn=_sum2, args=["x", "y"]))
+        m.add_reaction("v1", fnlib.ma1, args=["x", "kf"], stoichiometry={"x": -1, "y": 1})
+        m.add_reaction("v2", _rev_tot, args=["x", "tot", "kr"], stoichiometry={"x": 1, "y": -1})
+        m.add_derived("frac", fnlib.div, args=["x", "tot"])
+        return m
+    raise HarnessError(f"unknown scan model {name}")
+
+
+SCAN_MODELS = {
+    # name -> (scannable parameters, scannable variables)
+    "S1": (["c", "k1", "k2"], ["x", "y"]),
+    "S2": (["kf", "kr"], ["x", "y"]),
+    "S3": (["c", "k1", "kd"], ["x", "y"]),
+}
